@@ -158,6 +158,8 @@ def gen(rng, tier):
     for _ in range(n_tasks):
         c = gen_case(rng)
         if c is not None:
+            if rng.random() < 0.2:
+                c["decoy"] = 1
             cases.append(c)
     return cases
 
@@ -220,7 +222,10 @@ def shrink(case):
     kind, use_cache, skip, request, tasks = case["data"]
 
     def mk(ts):
-        return {"kind": "tasks", "data": [kind, use_cache, skip, request, ts]}
+        c = {"kind": "tasks", "data": [kind, use_cache, skip, request, ts]}
+        if case.get("decoy"):
+            c["decoy"] = 1
+        return c
 
     if len(tasks) > 1:
         for i in range(len(tasks)):
